@@ -6,16 +6,20 @@ SPEC = dict(
     drivers=["qxdriver_c09"],
     harnesses=[dict(name="sm", driver="qxdriver_c09")],
     exhaustive=True,
-    rule="histories over {send stanza (write ok / write fails), send nonza, <a h/> with h = last number used (exact), one below (stale/partial), "
-         "one beyond, <r/>, receive message/presence/iq/nonza, connection lost, reconnect where the scripted server refuses <resume/> and "
-         "accepts <enable/>, accepts <resume/> with h exact/stale/beyond, offers no stream management, refuses both, resetCache}, applied to a "
-         "real QXmppOutgoingClient (real StreamAckManager, C2sStreamManager, BindManager, XmppSocket; only QSslSocket::writeData is captured): "
-         "quick = every history of length 5 over a 9-symbol alphabet, of length 3 over all 19 symbols, and every length-5 continuation (9 "
-         "symbols) of a session holding two stored stanzas; thorough = length 7 over 7 symbols, length 6 over 9, length 4 over 19, and every "
-         "length-6 continuation of that session; plus seeded random histories of up to 60 symbols over 23 symbols (weighted) including failed writes during "
-         "<r/>, <enabled/>, <resumed/>. Every op line (symbols resolved to numbers) compares, between the implementation and the Lean model, the "
-         "ordered events of that op (elements written: packet label, r, a<h>, resume<h>; reports: label!sent|ack|ewrite|edisc; the bool send "
-         "returns) and enabled()/lastIncomingSequenceNumber(). A history is non-trivial when it yields >= 2 distinct observations.",
+    rule="histories over {send stanza (write ok / write fails), send nonza, sendIq (tracked request through QXmppOutgoingClient::sendIq), "
+         "<a h/> with h = last number used (exact), one below (stale/partial), one beyond, <r/>, receive message/presence/iq/nonza, receive the "
+         "IQ result for the oldest / the IQ error for the newest outstanding tracked request (an unsolicited response if none is outstanding), "
+         "connection lost, reconnect where the scripted server refuses <resume/> and accepts <enable/>, accepts <resume/> with h "
+         "exact/stale/beyond, offers no stream management, refuses both, resetCache}, applied to a real QXmppOutgoingClient (real "
+         "StreamAckManager, OutgoingIqManager, C2sStreamManager, BindManager, XmppSocket; only QSslSocket::writeData is captured; everything "
+         "received goes through handlePacketReceived): quick = every history of length 5 over an 11-symbol alphabet, of length 3 over all 22 "
+         "symbols, and every length-5 continuation (9 symbols) of a session holding two stored stanzas; thorough = length 7 over 7 symbols, "
+         "length 6 over 9, length 5 over 11, length 4 over 22, and every length-6 continuation of that session; plus seeded random histories "
+         "of up to 60 symbols over 27 symbols (weighted) including failed writes during sendIq, <r/>, <enabled/>, <resumed/>. Every op line "
+         "(symbols resolved to numbers) compares, between the implementation and the Lean model, the ordered events of that op (elements "
+         "written: packet label, r, a<h>, resume<h>; reports: label!sent|ack|ewrite|edisc; the bool send returns; the delivery report of a "
+         "tracked IQ request is consumed by the IQ manager and is left out on both sides) and enabled()/lastIncomingSequenceNumber(). A "
+         "history is non-trivial when it yields >= 2 distinct observations.",
     trusted_base=[
         "Lean 4.33.0 kernel; axioms per theorem listed under coverage.theorems (subset of propext, Classical.choice, Quot.sound)",
         "hand-written model lean/Qx/Model/C09Sm.lean, tied to src/base/QXmppStreamManagement.cpp and the C2sStreamManager calls in "
